@@ -163,7 +163,13 @@ func (c *CustomU24) Decode(b []byte) (int, error) {
 }
 
 // EncodeJSON implements serix.SerializableJSON.
-func (c CustomU24) EncodeJSON() (any, error) { return fmt.Sprintf("u24:%d", c.V), nil }
+func (c CustomU24) EncodeJSON() (any, error) {
+	if c.V >= 1<<24 {
+		return nil, errors.New("CustomU24 out of range")
+	}
+
+	return fmt.Sprintf("u24:%d", c.V), nil
+}
 
 // DecodeJSON implements serix.DeserializableJSON.
 func (c *CustomU24) DecodeJSON(v any) error {
